@@ -1,7 +1,7 @@
 (* C08 - Arbitrary bytes never cause memory-unsafe or undefined behaviour in decoding (partial: the
    byte-level contract is proved on the model; absence of UB in the binary is sanitizer-backed). *)
 From RS Require Import Base.Tac Base.Bytes Base.Dyadic Model.Desc Model.Kernels Model.Decoder Model.Driver Model.Input Gen.Params_gen.
-From RS Require Import Gen.Kernels_gen Proofs.SplitNum Proofs.Coords Proofs.Conservation Proofs.Layout Proofs.Eq_Trigon.
+From RS Require Import Gen.Kernels_gen Proofs.SplitNum Proofs.Coords Proofs.Conservation Proofs.Layout Proofs.Eq_Trigon Proofs.Eq_Copy.
 Local Open Scope Z_scope.
 
 (* T2: for all 17 regenerated descriptors: sizeof(packet struct) = accepted length; header, block,
@@ -37,6 +37,20 @@ Theorem C08_T4_raw_safe user tail buf_len b p : 0 <= user -> 0 <= tail -> raw_fe
 Proof. exact (raw_feed_safe user tail buf_len b p). Qed.
 Theorem C08_T4_raw_drops user tail buf_len b : (blen b <= user + tail \/ blen b - user - tail > buf_len) -> raw_feed user tail buf_len b = None.
 Proof. exact (raw_feed_drops user tail buf_len b). Qed.
+(* T4c: InputRaw::feedPacket as regenerated from input_raw.hpp (the sizes it checks and the memcpy / setData arguments, size_t
+   wrap explicit) is the model's raw_feed, and what it copies lies inside the caller's buffer and inside the packet buffer for
+   every size and every layer setting *)
+Theorem C08_T4_raw_code_is_model b off tail buf :
+  0 <= off <= 65535 -> 0 <= tail <= 65535 -> 0 <= buf < 2 ^ 63 -> blen b < 2 ^ 63 ->
+  InputRaw_feedPacket_copy (blen b) off tail buf =
+  match raw_feed off tail buf b with None => None | Some p => Some [off; blen p; 0; blen p] end.
+Proof. exact (gen_feed_packet_eq b off tail buf). Qed.
+Theorem C08_T4_raw_code_safe size off tail buf so cl d0 dl :
+  0 <= off <= 65535 -> 0 <= tail <= 65535 -> 0 <= buf < 2 ^ 63 -> 0 <= size < 2 ^ 63 ->
+  InputRaw_feedPacket_copy size off tail buf = Some [so; cl; d0; dl] ->
+  0 < cl /\ so + cl <= size /\ d0 + cl <= buf /\ dl = cl /\ d0 = 0 /\ so = off.
+Proof. exact (gen_feed_packet_safe size off tail buf so cl d0 dl). Qed.
+Print Assumptions C08_T4_raw_code_safe.
 Theorem C08_T4_buffers : g_ETH_LEN = 1546 /\ g_IP_LEN = 65536 /\ forallb (fun d => d_msop_len d <=? raw_buf_len d) all_descs = true.
 Proof. vm_compute. repeat split; reflexivity. Qed.
 
